@@ -402,6 +402,9 @@ func (c *Ctx) TLC(o TLCOpts) (*TLCResult, error) {
 	} else if strings.Contains(res.Out, "Error:") {
 		res.Violated = "error"
 	}
+	if res.Violated != "" || res.ExitCode == 124 || res.ExitCode == 137 {
+		os.WriteFile(filepath.Join(Root, ".work", "tlc-fail-"+c.ID+".log"), out, 0o644)
+	}
 	if res.ExitCode == 124 || res.ExitCode == 137 {
 		return res, fmt.Errorf("TLC timed out after %v (%s %s)", o.Timeout, o.Module, cfg)
 	}
